@@ -7,6 +7,7 @@ import (
 
 	"github.com/gogo/protobuf/proto"
 	configapi "github.com/onosproject/onos-api/go/onos/config/v2"
+	valuesv2 "github.com/onosproject/onos-config/pkg/utils/v2/values"
 	gpb "github.com/openconfig/gnmi/proto/gnmi"
 	"github.com/openconfig/gnmi/proto/gnmi_ext"
 	"google.golang.org/grpc/codes"
@@ -25,6 +26,14 @@ type SetSpec struct {
 	Sync bool       `json:"sync,omitempty"`
 	// Serializable asks for SERIALIZABLE isolation through extension 111.
 	Serializable bool `json:"serializable,omitempty"`
+	// Ext are additional registered extensions carried verbatim.
+	Ext []ExtSpec `json:"ext,omitempty"`
+}
+
+// ExtSpec is a raw registered extension.
+type ExtSpec struct {
+	ID  uint32 `json:"id"`
+	Msg []byte `json:"msg"`
 }
 
 // Build renders the request.
@@ -57,6 +66,10 @@ func (s SetSpec) Build() *gpb.SetRequest {
 		b, _ := proto.Marshal(st)
 		req.Extension = append(req.Extension, &gnmi_ext.Extension{Ext: &gnmi_ext.Extension_RegisteredExt{
 			RegisteredExt: &gnmi_ext.RegisteredExtension{Id: configapi.TransactionStrategyExtensionID, Msg: b}}})
+	}
+	for _, e := range s.Ext {
+		req.Extension = append(req.Extension, &gnmi_ext.Extension{Ext: &gnmi_ext.Extension_RegisteredExt{
+			RegisteredExt: &gnmi_ext.RegisteredExtension{Id: gnmi_ext.ExtensionID(e.ID), Msg: e.Msg}}})
 	}
 	return req
 }
@@ -181,3 +194,15 @@ func Code(err error) codes.Code {
 	}
 	return status.Code(err)
 }
+
+// nativeKey renders a stored onos-config value as a model value key (through
+// the code's own native->gNMI conversion, which C17 checks on its own).
+func nativeKey(pv *configapi.PathValue) (string, error) {
+	tv, err := valuesv2.NativeTypeToGnmiTypedValue(&pv.Value)
+	if err != nil {
+		return "", err
+	}
+	return model.FromGnmiValue(tv).Key(), nil
+}
+
+func configTarget(t string) configapi.TargetID { return configapi.TargetID(t) }
